@@ -6,6 +6,7 @@ import (
 	"flag"
 	"fmt"
 	"os"
+	"os/exec"
 	"path/filepath"
 	"sort"
 	"strconv"
@@ -21,9 +22,20 @@ type PropConfig struct {
 	SweepPkgs []string `json:"sweep_pkgs"` // package dirs whose every function is swept
 	NotCovered []string `json:"not_covered"`
 	Bounded   []string `json:"bounded"`
+	BoundedTests []BoundedTest `json:"bounded_tests"`
 	TrivialLoopInvariants bool `json:"trivial_loop_invariants"`
 	NoDependencies bool `json:"no_dependencies"`
 	SkipClosures bool `json:"sweep_skip_closures"`
+	AllContracted bool `json:"all_contracted"`
+}
+
+// BoundedTest: demonstration / regression inputs run on the real code (go test -overlay); a bounded
+// stand-in where no contract reaches, labelled bounded and never counted as proved.
+type BoundedTest struct {
+	Pkg   string   `json:"pkg"`
+	Files []string `json:"files"`
+	Race  bool     `json:"race"`
+	What  string   `json:"what"`
 }
 
 type PropsFile struct {
@@ -245,6 +257,13 @@ func cmdCheck(args []string) int {
 			}
 		}
 	}
+	if pc.AllContracted {
+		for key, sp := range e.funcSpecs {
+			if sp.IsFunctional() && !sp.Trusted && e.funcs[key] != nil {
+				funcSet[key] = true
+			}
+		}
+	}
 	swept := map[string]bool{}
 	for _, k := range pc.Sweep {
 		if _, ok := e.funcs[k]; ok {
@@ -420,6 +439,41 @@ func cmdCheck(args []string) int {
 		}
 		fsum = append(fsum, sum)
 	}
+	// bounded stand-ins: concrete inputs replayed on the real code
+	var boundedCases []map[string]any
+	for _, bt := range pc.BoundedTests {
+		res, out, err := runBounded(*repo, *verif, bt)
+		if err != nil {
+			violate("(bounded)", "bounded:"+bt.Pkg, "bounded tests could not be run: "+err.Error(), trunc(out, 4000), "", "", false)
+			continue
+		}
+		for _, name := range sortedKeys(res) {
+			pass := res[name]
+			boundedCases = append(boundedCases, map[string]any{"package": bt.Pkg, "case": name, "passed": pass, "what": bt.What})
+			if pass {
+				continue
+			}
+			obl := "bounded:" + name
+			matched := false
+			for i, fd := range findings {
+				if fd.Status == "open" && fd.Property == *prop && fd.Obligation == obl {
+					matched = true
+					usedFindings[i] = true
+					known++
+					fmt.Printf("KNOWN-FINDING: property=%s %s#%s %s\n", *prop, bt.Pkg, obl, fd.What)
+				}
+			}
+			if !matched {
+				violations++
+				rp := filepath.Join(replayDir, fmt.Sprintf("%03d.json", violations))
+				rec := map[string]any{"property": *prop, "function": bt.Pkg, "obligation": obl, "reason": "a bounded input fails on the real code", "failing_input_found": true,
+					"replay_test": strings.Join(bt.Files, ","), "replay_output": trunc(out, 20000), "how_to_reproduce": "tools/run_finding.sh " + bt.Pkg + " " + strings.Join(bt.Files, " ")}
+				b, _ := json.MarshalIndent(rec, "", " ")
+				os.WriteFile(rp, b, 0o644)
+				fmt.Printf("VIOLATION property=%s replay=%s\n  bounded case %s fails on the real code\n", *prop, rp, name)
+			}
+		}
+	}
 	if *prop == "C15" {
 		for _, r := range structuralC15(e) {
 			total++
@@ -483,6 +537,7 @@ func cmdCheck(args []string) int {
 			"outside_subset":         undecided,
 			"not_covered":            pc.NotCovered,
 			"bounded":                pc.Bounded,
+			"bounded_cases":          boundedCases,
 			"contracts_read_from":    e.contractSource,
 			"integers":               "Go integers are mathematical integers constrained to their range; wrap-around is explicit for sized types, int/int64 arithmetic is mathematical (listed when used)",
 			"explanation":            "every obligation is a negated verification condition generated from the SSA of /repo's working tree and refuted by an SMT solver",
@@ -543,4 +598,55 @@ func writeEvidence(path string, ev Evidence) {
 	}
 	b, _ := json.MarshalIndent(ev, "", " ")
 	os.WriteFile(path, b, 0o644)
+}
+
+// runBounded injects the test files of a bounded stand-in into the repository package with
+// `go test -overlay` (nothing is written to the repository) and returns pass/fail per test.
+func runBounded(repo, verif string, bt BoundedTest) (map[string]bool, string, error) {
+	dir, err := os.MkdirTemp("", "hvc-bounded")
+	if err != nil {
+		return nil, "", err
+	}
+	defer os.RemoveAll(dir)
+	repl := map[string]string{}
+	files := append([]string{"zz_verif_helpers_test.go"}, bt.Files...)
+	for _, f := range files {
+		src := filepath.Join(verif, "findings", bt.Pkg, f)
+		if _, err := os.Stat(src); err != nil {
+			src = filepath.Join(verif, "findings", f)
+			if _, err := os.Stat(src); err != nil {
+				if f == "zz_verif_helpers_test.go" {
+					continue
+				}
+				return nil, "", fmt.Errorf("bounded test file %s not found", f)
+			}
+		}
+		repl[filepath.Join(repo, bt.Pkg, "zz_verif_"+f)] = src
+	}
+	ov, _ := json.Marshal(map[string]any{"Replace": repl})
+	ovPath := filepath.Join(dir, "ov.json")
+	os.WriteFile(ovPath, ov, 0o644)
+	args := []string{"test", "-overlay", ovPath, "-vet=off", "-count=1", "-timeout", "300s", "-v", "-run", "TestVerif"}
+	if bt.Race {
+		args = append(args, "-race")
+	}
+	args = append(args, "./"+bt.Pkg)
+	cmd := exec.Command("go", args...)
+	cmd.Dir = repo
+	cmd.Env = append(os.Environ(), "GOFLAGS=-mod=mod", "GOPROXY=off", "GOSUMDB=off", "GOTOOLCHAIN=local")
+	outB, _ := cmd.CombinedOutput()
+	out := string(outB)
+	res := map[string]bool{}
+	for _, l := range strings.Split(out, "\n") {
+		l = strings.TrimSpace(l)
+		if strings.HasPrefix(l, "--- PASS: ") {
+			res[strings.Fields(l[len("--- PASS: "):])[0]] = true
+		} else if strings.HasPrefix(l, "--- FAIL: ") {
+			res[strings.Fields(l[len("--- FAIL: "):])[0]] = false
+		}
+	}
+	if len(res) == 0 {
+		return nil, out, fmt.Errorf("no test results (build failure?)")
+	}
+	return res, out, nil
 }
